@@ -67,6 +67,7 @@ type State struct {
 	ghost  map[string]Term
 	pc     []string
 	defers []deferred
+	escaped map[types.Object]token.Pos // reference-typed variables whose value was stored into another location
 }
 
 func (s *State) clone() *State {
@@ -82,6 +83,12 @@ func (s *State) clone() *State {
 	}
 	n.pc = s.pc[:len(s.pc):len(s.pc)]
 	n.defers = s.defers[:len(s.defers):len(s.defers)]
+	if len(s.escaped) > 0 {
+		n.escaped = make(map[types.Object]token.Pos, len(s.escaped))
+		for k, v := range s.escaped {
+			n.escaped[k] = v
+		}
+	}
 	return n
 }
 
@@ -209,10 +216,33 @@ func (fv *FV) fresh(hint string, so *Sort) Term {
 	n := fmt.Sprintf("%s!%d", hint, fv.nfresh)
 	fv.decls = append(fv.decls, fmt.Sprintf("(declare-const %s %s)", n, so.Name))
 	t := Term{n, so}
-	for _, f := range wfFacts(t, 3) {
+	for _, f := range fv.wfAll(t, 5) {
 		fv.decls = append(fv.decls, "(assert "+f+")")
 	}
 	return t
+}
+
+// wfAll: slice lengths are not negative and maps are well formed, for everything reachable through struct fields / pointers.
+func (fv *FV) wfAll(t Term, depth int) []string {
+	out := wfFacts(t, depth)
+	var walk func(t Term, d int)
+	walk = func(t Term, d int) {
+		if d == 0 || t.Sort == nil {
+			return
+		}
+		switch t.Sort.Kind {
+		case KMap:
+			out = append(out, fv.ss.mapWf(t)...)
+		case KStruct:
+			for _, f := range t.Sort.Fields {
+				walk(Term{sx(f.Acc, t.S), f.Sort}, d-1)
+			}
+		case KPtr:
+			walk(ptrDrf(t), d-1)
+		}
+	}
+	walk(t, depth)
+	return out
 }
 
 // wfFacts: lengths of slices reachable through struct fields and non-nil pointers are not negative.
